@@ -47,6 +47,18 @@ def outer(argv):
         "DATAITER_VERIF": "1",
         "PYTHONWARNINGS": "ignore",
     })
+    # A replayed case / shard that was explored under another string-hash seed is replayed under that seed.
+    if "--replay" in argv:
+        try:
+            import json
+            with open(argv[argv.index("--replay") + 1]) as f:
+                case = json.load(f).get("case") or {}
+            spec = case.get("__shard__") if isinstance(case, dict) and "__shard__" in case else case
+            seed = ((spec or {}).get("__env__") or {}).get("PYTHONHASHSEED") if isinstance(spec, dict) else None
+            if seed is not None:
+                env["PYTHONHASHSEED"] = str(seed)
+        except (OSError, ValueError, IndexError):
+            pass
     # Numba is only needed by C08 (which manages it per process history itself).
     env.setdefault("DATAITER_USE_NUMBA", "false")
     env["DATAITER_USE_NUMBA"] = "false"
